@@ -22,7 +22,7 @@ import liquid.builtin.loaders.package_loader as PK
 from liquid import CachingFileSystemLoader, Environment, FileSystemLoader, PackageLoader
 from liquid.exceptions import TemplateNotFoundError
 
-from vf.hx import drive, excluded, finish
+from vf.hx import cbool, cint, drive, excluded, finish, untraced
 
 PROPERTY = "C22"
 RealPath = FS.Path
@@ -190,6 +190,8 @@ _w("search/sub/b.liquid", "INSIDE sub/b")
 _w("search/é.liquid", "INSIDE e-acute")
 _w("search2/c.liquid", "INSIDE2 c")
 _w("search2/a.liquid", "INSIDE2 a")
+_w("search_private/secret.liquid", "OUTSIDE sibling whose name has the search directory's name as a prefix")
+_w("search_private/a.liquid", "OUTSIDE sibling a")
 _w("outside/decoy.liquid", "OUTSIDE decoy")
 _w("outside/a.liquid", "OUTSIDE a")
 _w("decoy.liquid", "OUTSIDE root decoy")
@@ -199,7 +201,8 @@ _w("vfpkg22/templates/sub/b.liquid", "PKG sub/b")
 _w("vfpkg22/decoy.liquid", "OUTSIDE pkg decoy")
 os.symlink("a.liquid", os.path.join(ROOT, "search/link_in.liquid"))
 os.symlink("../outside/decoy.liquid", os.path.join(ROOT, "search/link_out.liquid"))
-os.symlink("../outside", os.path.join(ROOT, "search/linkdir"))
+os.symlink("../search_private", os.path.join(ROOT, "search/linkdir"))
+os.symlink("../search_private/secret.liquid", os.path.join(ROOT, "search/link_sib.liquid"))
 SEARCH = os.path.join(ROOT, "search")
 SEARCH2 = os.path.join(ROOT, "search2")
 sys.path.insert(0, ROOT)
@@ -223,7 +226,7 @@ def frag(i):
     if i == 6:
         return "link_out"
     if i == 7:
-        return "link_in"
+        return "link_sib"
     if i == 8:
         return "n" * 300
     if i == 9:
@@ -237,7 +240,7 @@ def frag(i):
     if i == 13:
         return "search"
     if i == 14:
-        return "c"
+        return "link_in"
     return "n" * 300
 
 
@@ -366,7 +369,9 @@ def _mk_real(kind, p, use_async, wide):
                 return True
             if kind == "cfs" and ext:
                 return True
-            return finish(_req(kind, _name(p, f1, sep, f2, s), reject, ext, use_async))
+            name = _name(p, f1, cbool(sep), f2, s)
+            reject, ext = cbool(reject), cbool(ext)
+            return finish(untraced(lambda: _req(kind, name, reject, ext, use_async)))
     else:
         def f(f1: int, sep: bool, f2: int, s: int, reject: bool, ext: bool) -> bool:
             """
@@ -379,7 +384,9 @@ def _mk_real(kind, p, use_async, wide):
                 return True
             if kind == "cfs" and ext:
                 return True
-            return finish(_req(kind, _name(p, f1, sep, f2, s), reject, ext, use_async))
+            name = _name(p, f1, cbool(sep), f2, s)
+            reject, ext = cbool(reject), cbool(ext)
+            return finish(untraced(lambda: _req(kind, name, reject, ext, use_async)))
     f.__name__ = f.__qualname__ = nm
     return nm, f
 
